@@ -45,6 +45,9 @@ FAULTS = {
     "unknown-module-named-like-os": ("os", "getcwd", {}, None),
     "rejected-uncopyable-param": ("qartod", "location_test", {"bbox": "GENERATOR"}, None),
     "unknown-test-argo": ("argo", "gross_range_test", {"fail_span": [0, 1]}, None),
+    # a name that is a real test's name minus its "_test" suffix is an unknown name like any other
+    "unknown-test-name-without-suffix": ("qartod", "gross_range", {"fail_span": [0, 1], "suspect_span": [0, 1]}, None),
+    "unknown-test-name-without-suffix-2": ("qartod", "spike", {"suspect_threshold": 0.001, "fail_threshold": 0.002}, None),
     "malformed-span": ("qartod", "climatology_test", {"config": [{"tspan": [0, 1, 2], "vspan": [0, 1], "period": "month"}]}, None),
     "suspect-outside-fail": ("qartod", "location_test", {"bbox": [0, 0, 1]}, None),
     "missing-required-param": ("qartod", "rate_of_change_test", {}, None),
